@@ -337,3 +337,35 @@ fn pwb_0ch() {
     while i < 10 { b[34 + i] = (m >> (8 * i)) as u8; i += 1; }
     pwb_check(&b);
 }
+
+// ================================================================ expressions cut out of the physics crate (C09, C10, C13)
+mod frag_phys { include!(concat!(env!("VERIF_FRAG_DIR"), "/frag_phys.rs")); }
+
+fn cal_spec(v: i16, baseline: i16, gain: f64) -> f64 { (v as f64 - baseline as f64) * gain }
+fn pick_gain() -> f64 { let g: u8 = kani::any(); if g == 0 { 3.0 } else if g == 1 { -0.5 } else { 1.0 } }
+
+#[kani::proof]
+fn cal_wire_complete() {
+    let (v, b): (i16, i16) = (kani::any(), kani::any());
+    let g = pick_gain();
+    let r = frag_phys::wire_cal(v, b, g);          // no panic for any sample / baseline
+    assert!(r == cal_spec(v, b, g));               // (sample - baseline) * gain, exactly (integers < 2^17 are exact in f64)
+}
+#[kani::proof]
+fn cal_pad_complete() {
+    let (v, b): (i16, i16) = (kani::any(), kani::any());
+    let g = pick_gain();
+    let r = frag_phys::pad_cal(v, b, g);
+    assert!(r == cal_spec(v, b, g));
+}
+#[kani::proof]
+fn a_entry_complete() {
+    let (i, j): (usize, usize) = (kani::any(), kani::any());
+    kani::assume(i < 256 && j < 256);
+    let d = if i > j { i - j } else { j - i };
+    let spec = [1.0, -0.1275, -0.0365, -0.012, -0.0042];
+    let r = frag_phys::a_entry(i, j);
+    assert!(r == if d <= 4 { spec[d] } else { 0.0 });
+    assert!(frag_phys::a_entry(j, i) == r);                                  // symmetric
+    if i < 255 && j < 255 { assert!(frag_phys::a_entry(i + 1, j + 1) == r); }   // depends on the distance only
+}
